@@ -98,25 +98,29 @@ def r1(ctx):
     ctx.need(ENV, "C15.R1: create() does not return (resp, environ)")
     stores = [s for s in g.stmts(ast.Assign) if any(isinstance(t, ast.Subscript) and tail(t.value) == ENV for t in s.ast.targets) and any(a is loop.ast for a in f.module.ancestors(s.ast))]
     ctx.need(stores, "C15.R1: no environ store in the header loop")
-    watch = {}
+    # evaluated: which environ key receives the value of a request header (however the mapping is written: if-chain,
+    # lookup table, helper)
+    probes = {}
     for s in stores:
         t = s.ast.targets[0]
-        k = const(t.slice, NO)
-        watch[s.id] = (k if isinstance(k, str) else "HTTP_*") + "<-" + norm(s.ast.value)
+        probes[s.id] = ("store", lambda ex_, env, t=t, v=s.ast.value: (ex_.ev(t.slice, env), ex_.ev(v, env)))
     rows = []
-    for hn in ("CONTENT-TYPE", "CONTENT-LENGTH", "HOST", "X-FOO", "EXPECT", "COOKIE"):
+    for hn in ("CONTENT-TYPE", "CONTENT-LENGTH", "HOST", "X-FOO", "EXPECT", "COOKIE", "X-CONTENT-TYPE", "CONTENT-TYPE-X"):
         ex = Explorer(f)
-        outs = ex.run(loop, {HN: hn, HV: "v"}, stop=lambda n: n is loop, start_label="true", watch=watch)
-        got = set(tuple(sorted(e for e in o.events if isinstance(e, str))) for o in outs if o.kind == "stop")
-        if hn == "CONTENT-TYPE":
-            want = {("CONTENT_TYPE<-%s" % HV,)}
-        elif hn == "CONTENT-LENGTH":
-            want = {("CONTENT_LENGTH<-%s" % HV,)}
+        outs = ex.run(loop, {HN: hn, HV: "v"}, stop=lambda n: n is loop, start_label="true", probes=probes)
+        got = set()
+        for o in outs:
+            if o.kind == "stop":
+                got.add(tuple(sorted((str(e[1][0]) if not isinstance(e[1], str) else "?", "value" if not isinstance(e[1], str) and e[1][1] == "v" else "joined/other")
+                                     for e in o.events if isinstance(e, tuple) and e[0] == "store")))
+        if hn in ("CONTENT-TYPE", "CONTENT-LENGTH"):
+            wkey = hn.replace("-", "_")
         else:
-            want = {("HTTP_*<-%s" % HV,)}
-        rows.append({"header": hn, "stores": sorted(map(str, got)), "required": sorted(map(str, want))})
-        ctx.check("C15.R1", got == want, key(f, "header-map|" + hn), site(f, text="header " + hn), "header %s leads to environ stores %s, required %s" % (hn, sorted(map(str, got)), sorted(map(str, want))),
-                  "%s" % sorted(map(str, want)))
+            wkey = "HTTP_" + hn.replace("-", "_")
+        okrow = bool(got) and all(len(g_) == 1 and g_[0][0] == wkey for g_ in got) and any(g_[0][1] == "value" for g_ in got)
+        rows.append({"header": hn, "stores": sorted(map(str, got)), "required": wkey})
+        ctx.check("C15.R1", okrow, key(f, "header-map|" + hn), site(f, text="header " + hn), "header %s leads to environ stores %s, required exactly one store to %s" % (hn, sorted(map(str, got)), wkey),
+                  "%s <- value" % wkey)
     ctx.table("C15.R1 header mapping", rows)
     # repeated fields joined with ',' in arrival order
     joins = [s for s in g.stmts(ast.Assign) if isinstance(s.ast.targets[0], ast.Name) and s.ast.targets[0].id == HV and any(a is loop.ast for a in f.module.ancestors(s.ast))]
